@@ -10,5 +10,7 @@ CONSTANTS
   TsFix = TRUE
   Late = {a}
   NeedKnown = TRUE
+  SplitDeliver = FALSE
+  GuardedEvict = TRUE
 INVARIANTS SingleNewestOwner
 CHECK_DEADLOCK FALSE
